@@ -11,9 +11,25 @@ struct PieceReader {
     pos: usize,
     pieces: Vec<usize>,
     k: usize,
+    /// `rerr=<kind>:<k>`: read number k fails once with that error kind and hands over nothing (a source that is not ready yet,
+    /// a time-out, an interrupted call); the following reads carry on
+    fail: Option<(io::ErrorKind, usize)>,
+    /// `bump=<s>`: the source is slow — the (interposed) clock has advanced by s seconds when its first read returns
+    bump: i64,
+    calls: usize,
 }
 impl Read for PieceReader {
     fn read(&mut self, buf: &mut [u8]) -> io::Result<usize> {
+        let call = self.calls;
+        self.calls += 1;
+        if call == 0 && self.bump != 0 {
+            FAKE_SEC.fetch_add(self.bump, Ordering::SeqCst);
+        }
+        if let Some((kind, at)) = self.fail {
+            if at == call {
+                return Err(io::Error::new(kind, "source not ready"));
+            }
+        }
         let piece = if self.k < self.pieces.len() { self.pieces[self.k] } else { buf.len() };
         self.k += 1;
         let n = buf.len().min(piece).min(self.data.len() - self.pos);
@@ -24,6 +40,8 @@ impl Read for PieceReader {
 }
 
 struct Sink {
+    /// the (interposed) clock reading when the first byte of the message was written
+    first_write_sec: Option<i64>,
     out: Vec<u8>,
     accept: Option<usize>,
     first_vectored_done: bool,
@@ -31,11 +49,13 @@ struct Sink {
 }
 impl Write for Sink {
     fn write(&mut self, buf: &[u8]) -> io::Result<usize> {
+        if self.first_write_sec.is_none() { self.first_write_sec = Some(FAKE_SEC.load(Ordering::SeqCst)); }
         let n = buf.len().min(1000); // short writes: write_all must loop
         self.out.extend_from_slice(&buf[..n]);
         Ok(n)
     }
     fn write_vectored(&mut self, bufs: &[IoSlice<'_>]) -> io::Result<usize> {
+        if self.first_write_sec.is_none() { self.first_write_sec = Some(FAKE_SEC.load(Ordering::SeqCst)); }
         let total: usize = bufs.iter().map(|b| b.len()).sum();
         let mut n = total;
         if !self.first_vectored_done {
@@ -91,7 +111,7 @@ fn run_pre(spec: &str) {
             let mut h = Headers::new_nodate();
             h.add("x-pre", &b"stale"[..]);
             let body = b"pre-body-pre-body".to_vec();
-            let rd = PieceReader { data: body.clone(), pos: 0, pieces: vec![3], k: 0 };
+            let rd = PieceReader { data: body.clone(), pos: 0, pieces: vec![3], k: 0, fail: None, bump: 0, calls: 0 };
             let _ = match entry.as_str() {
                 "empty" => HttpPrinter::write_response_empty(&mut sink, &status, &h),
                 "bytes" => HttpPrinter::write_response_bytes(&mut sink, &status, &h, &body),
@@ -115,6 +135,8 @@ pub fn print(arg: &str) -> String {
     let mut accept: Option<usize> = None;
     let mut method = "GET".to_string();
     let mut uri: Vec<u8> = b"/".to_vec();
+    let mut rerr: Option<(io::ErrorKind, usize)> = None;
+    let mut bump: i64 = 0;
     for w in arg.split_whitespace() {
         if let Some(v) = w.strip_prefix("entry=") { entry = v }
         if let Some(v) = w.strip_prefix("code=") { code = v.parse().unwrap_or(200) }
@@ -135,6 +157,17 @@ pub fn print(arg: &str) -> String {
         if let Some(v) = w.strip_prefix("method=") { method = v.to_string() }
         if let Some(v) = w.strip_prefix("uri=") { uri = unhex(v) }
         if let Some(v) = w.strip_prefix("pre=") { run_pre(v) }
+        if let Some(v) = w.strip_prefix("rerr=") {
+            let mut it = v.split(':');
+            let kind = match it.next().unwrap_or("") {
+                "wouldblock" => io::ErrorKind::WouldBlock,
+                "timedout" => io::ErrorKind::TimedOut,
+                "interrupted" => io::ErrorKind::Interrupted,
+                _ => io::ErrorKind::Other,
+            };
+            rerr = Some((kind, it.next().and_then(|x| x.parse().ok()).unwrap_or(0)));
+        }
+        if let Some(v) = w.strip_prefix("bump=") { bump = v.parse().unwrap_or(0) }
     }
     // headers
     let mut store: Vec<(String, Vec<u8>)> = Vec::new();
@@ -180,9 +213,9 @@ pub fn print(arg: &str) -> String {
     let uri_s = match String::from_utf8(uri) { Ok(s) => s, Err(_) => return "BAD-ARG uri".into() };
     FAKE_SEC.store(0, Ordering::SeqCst);
     FAKE_CLOCK.store(true, Ordering::SeqCst);
-    let mut sink = Sink { out: Vec::new(), accept, first_vectored_done: false, bad_accept: false };
+    let mut sink = Sink { first_write_sec: None, out: Vec::new(), accept, first_vectored_done: false, bad_accept: false };
     let res = std::panic::catch_unwind(std::panic::AssertUnwindSafe(|| {
-        let rd = PieceReader { data: body.clone(), pos: 0, pieces: pieces.clone(), k: 0 };
+        let rd = PieceReader { data: body.clone(), pos: 0, pieces: pieces.clone(), k: 0, fail: rerr, bump, calls: 0 };
         match entry {
             "empty" => HttpPrinter::write_response_empty(&mut sink, &status, &h),
             "bytes" => HttpPrinter::write_response_bytes(&mut sink, &status, &h, &body),
@@ -194,6 +227,14 @@ pub fn print(arg: &str) -> String {
     FAKE_CLOCK.store(false, Ordering::SeqCst);
     if sink.bad_accept {
         return "BAD-ACCEPT".into();
+    }
+    if bump != 0 {
+        // PRINT … bump=<s>: `LAG <clock at the first write> <hex of the emitted bytes>` (answered by the real code only)
+        return match res {
+            Ok(Ok(())) => format!("LAG {} {}", sink.first_write_sec.unwrap_or(-1), hex(&sink.out)),
+            Ok(Err(_)) => "ERR".into(),
+            Err(_) => "PANIC".into(),
+        };
     }
     match res {
         Err(_) => "PANIC".into(),
